@@ -198,7 +198,11 @@ def _get_aligned_axes(arrays, join='outer', axis=None , sort=False, strict=False
             raise ValueError("align (strict=True): some arrays lack dimension {}".format(d))
 
         # common axis to reindex on
-        ax = _common_axis([arrays[i].axes[d] for i in ii], join)
+        # (single-label axes have no sort direction of their own: merge them last,
+        # i.e. put them first since _common_axis starts from the end of the list)
+        axs = [arrays[i].axes[d] for i in ii]
+        axs = [ax for ax in axs if ax.size < 2] + [ax for ax in axs if ax.size >= 2]
+        ax = _common_axis(axs, join)
 
         if sort:
             ax = ax.copy() # may be the very Axis object of one of the inputs
